@@ -135,6 +135,12 @@ class Variant:
         self.name, self.value = name, value
 
 
+class HalfFloat:
+    """(integral value) / 2.0 — exact in f64; only floor() of it is interpreted"""
+    def __init__(self, t):
+        self.t = t
+
+
 class IFloat:
     """an f64 known to hold an integral value (day counts): carried as an Int term"""
     def __init__(self, t):
@@ -636,6 +642,12 @@ class Ctx:
                 lo, hi = INT_TYPES[m.group(1)]
                 return I(lo if m.group(2) == "MIN" else hi)
             if re.match(r"^-?[0-9][0-9.eE+-]*f(64|32)$", c) or c in ("f64::NAN", "f64::INFINITY"):
+                try:
+                    fv = float(c[:-3])
+                    if fv == int(fv) and abs(fv) < 1e6:
+                        return Opaque("float:%d" % int(fv))
+                except Exception:
+                    pass
                 return Opaque("float")
             m = re.match(r'^b"(.*)"$', c)
             if m:
@@ -652,6 +664,8 @@ class Ctx:
                                 "AddWithOverflow", "SubWithOverflow", "MulWithOverflow", "Not", "Neg", "AddUnchecked", "SubUnchecked"):
             op = m.group(1)
             ops = [self.operand(fr, a) for a in split_top(m.group(2))]
+            if op == "Div" and len(ops) == 2 and isinstance(ops[0], IFloat) and isinstance(ops[1], Opaque) and ops[1].name == "float:2":
+                return HalfFloat(ops[0].t)
             if any(not isinstance(o, T) for o in ops):
                 if all(isinstance(o, (T, Opaque, IFloat)) for o in ops) and any(isinstance(o, (Opaque, IFloat)) for o in ops):
                     if op in ("Eq", "Ne", "Lt", "Le", "Gt", "Ge"):
